@@ -1,4 +1,8 @@
 import OSProofs.Props.C19
+import OSProofs.Props.C19b
 #print axioms OS.omegaDelta_btp_eq_btf
 #print axioms OS.compute_btp_eq_btf
 #print axioms OS.C19_btp_eq_btf_two
+#print axioms OS.C19_validateRate_kind_free
+#print axioms OS.C19_validatePredict_kind_free
+#print axioms OS.swapKind_isRatingOf
